@@ -48,6 +48,7 @@ def new_sample(client_id=0, sample_type=metrics.SampleType.Normal, dependent=0, 
                 "ghost-dep": "%d.%d" % (gid, j)} for j in range(dependent)]
     s = driver.Sample(client_id, 10.0 + gid, 20.0 + gid, 1.0, task, sample_type, {"ghost": gid, "success": True}, lat, st, pt, None, 1, "docs", 1.0, 0.5, dep)
     s.gid = gid
+    s._dependent_timing_copy = [dict(x["dependent_timing"]) for x in dep] if dep else []  # Sample.dependent_timings pops the entries
     return s
 
 
@@ -83,7 +84,7 @@ def ids_in_docs(docs):
     """ghost id -> list of (name, task, operation, sample-type, client_id) of request records"""
     out = collections.defaultdict(list)
     for d in docs:
-        if d["name"] in ("latency", "service_time", "processing_time") and "ghost" in d.get("meta", {}):
+        if d["name"] in ("latency", "service_time", "processing_time") and "ghost" in d.get("meta", {}) and "ghost-dep" not in d["meta"]:
             out[d["meta"]["ghost"]].append(d)
     return out
 
@@ -132,9 +133,10 @@ class Pipeline:
         self.in_flight = [new_sample() for _ in range(n("samples_in_update_message", hi))]
         if self.in_flight:
             self.sys.send(self.w_addr, self.da_addr, driver.UpdateSamples(0, list(self.in_flight)))
-        self.raw = [new_sample(client_id=i % 2, sample_type=metrics.SampleType.Warmup if i == 0 else metrics.SampleType.Normal) for i in range(n("raw_samples_at_driver", hi + 1))]
+        self.raw = [new_sample(client_id=i % 2, sample_type=metrics.SampleType.Warmup if i == 0 else metrics.SampleType.Normal,
+                               dependent=2 if (sl.get("dependent") and i == 0) else 0) for i in range(n("raw_samples_at_driver", hi + 1))]
         self.D.raw_samples = list(self.raw)
-        self.stored = [new_sample() for _ in range(n("samples_in_driver_store", hi))]
+        self.stored = [new_sample(dependent=1 if sl.get("dependent") else 0) for _ in range(n("samples_in_driver_store", hi))]
         with env():
             for s in self.stored:
                 put_sample_docs(self.dstore, s)
@@ -282,6 +284,18 @@ def pipeline_step(sl):
     deps_found = sum(len(dep_docs(d)) for d in (p.dstore.docs if p.D.metrics_store is not None else [], p.payload or [], p.rcstore.docs)) + sum(
         len(dep_docs(m.metrics or [])) for (_, m) in p.sys.chan.get((p.da_addr.addressDetails, p.rc_addr.addressDetails), ()) if hasattr(m, "metrics"))
     observe("one service_time record per dependent sub-request of a stored sample", deps_found == deps_expected)
+    all_dep_docs = dep_docs(p.dstore.docs if p.D.metrics_store is not None else []) + dep_docs(p.payload or []) + dep_docs(p.rcstore.docs)
+    for (_, m) in p.sys.chan.get((p.da_addr.addressDetails, p.rc_addr.addressDetails), ()):
+        if hasattr(m, "metrics"):
+            all_dep_docs += dep_docs(m.metrics or [])
+    for d in all_dep_docs:
+        gid, j = d["meta"]["ghost-dep"].split(".")
+        parent = all_samples[int(gid)]
+        timing = parent._dependent_timing_copy[int(j)]
+        observe("a sub-request record is a service_time record of the SUB-request's operation and type, under the parent's task, sample type and client",
+                d["name"] == "service_time" and d["operation"] == timing["operation"] and d["operation-type"] == timing["operation-type"]
+                and d["task"] == parent.task.name and d["sample-type"] == parent.sample_type.name.lower() and d["meta"]["client_id"] == parent.client_id)
+        observe("a sub-request record carries the sub-request's own service time in ms", d["value"] == timing["service_time"] * 1000)
     if event == "post_process":
         observe("raw samples are consumed", p.D.raw_samples == [])
         thr = [d for d in p.dstore.docs if d["name"] == "throughput"]
@@ -290,6 +304,57 @@ def pipeline_step(sl):
         observe("after the hand-over the driver's store holds nothing any more", p.D.metrics_store is None or p.dstore.docs == [])
     if event == "benchmark_complete":
         observe("results are computed after the last hand-over reached race control's store", p.results_calls and p.results_calls[0] == len(p.rcstore.docs))
+
+
+def drain_interleaving(sl):
+    """the load generator (another thread) adds a sample while Sampler.samples drains the queue: the producer's add is injected at a
+    solver-chosen LINE of the drain (statement granularity; interleavings inside one line are not covered)"""
+    import sys as _sys
+
+    GHOST[0] = 0
+    n0 = concrete(fresh_int("samples_in_queue_before", 0, 2))
+
+    def mk():
+        sm = driver.Sampler(start_timestamp=0, buffer_size=100)
+        for i in range(n0):
+            sm.add(TASK, 0, metrics.SampleType.Normal, {"ghost": i + 1}, 1.0, 2.0, 0.1, 0.1, 0.1, None, 1, "docs", 1.0, 0.5)
+        return sm
+
+    code = driver.Sampler.samples.fget.__code__
+
+    def run(sm, k):
+        state = {"n": 0, "done": False}
+
+        def tr(frame, event, arg):
+            if frame.f_code is code:
+                if event == "line":
+                    state["n"] += 1
+                    if k is not None and state["n"] == k and not state["done"]:
+                        state["done"] = True
+                        _sys.settrace(None)
+                        sm.add(TASK, 0, metrics.SampleType.Normal, {"ghost": 99}, 1.0, 2.0, 0.1, 0.1, 0.1, None, 1, "docs", 1.0, 0.5)
+                        _sys.settrace(tr)
+                return tr
+            return None
+
+        _sys.settrace(tr)
+        try:
+            got = sm.samples
+        finally:
+            _sys.settrace(None)
+        return got, state
+
+    _, st = run(mk(), None)
+    lines = st["n"]
+    k = concrete(fresh_int("producer_adds_at_line_event", 1, max(lines, 1)))
+    sm = mk()
+    got, st = run(sm, k)
+    rest = sm.samples
+    ids = [x.request_meta_data["ghost"] for x in got] + [x.request_meta_data["ghost"] for x in rest]
+    core.note("line events in the drain", lines)
+    core.note("drained / drained later", ([x.request_meta_data["ghost"] for x in got], [x.request_meta_data["ghost"] for x in rest]))
+    core.trace("n", len(ids))
+    observe("a sample added while the queue is being drained is neither lost nor duplicated", sorted(ids) == list(range(1, n0 + 1)) + ([99] if st["done"] else []))
 
 
 class _RcMetrics:
@@ -582,4 +647,8 @@ HARNESSES = [
                     "downsample factor": "1..3", "queue size": "1..3 (or large)", "stages": EVENTS, "sample values": "symbolic reals > 0"},
             real_valued=True, doc="every single stage conserves samples: each ghost id in exactly one place, stored samples have exactly their records"),
 ]
+HARNESSES.append(Harness("drain_interleaving", drain_interleaving, "bounded-exhaustive", lambda tier: [{}], reads=[driver.Sampler.samples.fget, driver.Sampler.add],
+                         stubs=["producer thread = an add() injected by sys.settrace at a line event inside Sampler.samples"],
+                         bounds={"samples before": "0..2", "injection point": "every line event of the drain"},
+                         doc="drain vs. concurrent add at statement granularity"))
 BUDGET = {"quick": 170, "thorough": 1200}
